@@ -629,6 +629,7 @@ htp_status_t htp_connp_RES_BODY_DETERMINE(htp_connp_t *connp) {
 
             htp_table_clear(connp->out_tx->response_headers);
 
+            HTP_VERIF_TP(connp, connp->out_tx, "res_100_continue");
             // Expecting to see another response line next.
             connp->out_state = htp_connp_RES_LINE;
             connp->out_tx->response_progress = HTP_RESPONSE_LINE;
@@ -1097,6 +1098,7 @@ htp_status_t htp_connp_RES_LINE(htp_connp_t *connp) {
                     htp_connp_res_clear_buffer(connp);
                     return HTP_OK;
                 }
+                HTP_VERIF_TP(connp, connp->out_tx, "res_line_as_body");
                 connp->out_tx->response_content_encoding_processing = HTP_COMPRESSION_NONE;
 
                 connp->out_current_consume_offset = connp->out_current_read_offset;
@@ -1176,6 +1178,7 @@ htp_status_t htp_connp_RES_FINALIZE(htp_connp_t *connp) {
 
     if (htp_treat_response_line_as_body(data, bytes_left)) {
         // Interpret remaining bytes as body data
+        HTP_VERIF_TP(connp, connp->out_tx, "res_finalize_body");
         htp_log(connp, HTP_LOG_MARK, HTP_LOG_WARNING, 0, "Unexpected response body");
         htp_status_t rc = htp_tx_res_process_body_data_ex(connp->out_tx, data, bytes_left);
         htp_connp_res_clear_buffer(connp);
@@ -1226,6 +1229,7 @@ htp_status_t htp_connp_RES_IDLE(htp_connp_t *connp) {
         if (connp->out_tx == NULL) {
             return HTP_ERROR;
         }
+        HTP_VERIF_TP(connp, connp->out_tx, "res_idle_no_request");
         connp->out_tx->parsed_uri = htp_uri_alloc();
         if (connp->out_tx->parsed_uri == NULL) {
             return HTP_ERROR;
